@@ -117,8 +117,15 @@ fn mutate_inner(rng: &mut Rng, root: &mut HNode, kind: usize) -> bool {
                 if outs.is_empty() {
                     return false;
                 }
-                let i = rng.below(outs.len());
-                outs[i].0 = *rng.pick(&[0.0, -0.0, -1.0, f64::NAN, f64::INFINITY, f64::NEG_INFINITY, -1e-300]);
+                if rng.chance(0.3) {
+                    // every weight of the node negative: the ratios look like a distribution
+                    for o in outs.iter_mut() {
+                        o.0 = -o.0.abs();
+                    }
+                } else {
+                    let i = rng.below(outs.len());
+                    outs[i].0 = *rng.pick(&[0.0, -0.0, -1.0, f64::NAN, f64::INFINITY, f64::NEG_INFINITY, -1e-300]);
+                }
             }
             true
         }
